@@ -31,10 +31,12 @@ import (
 	"os/exec"
 	"regexp"
 	"sort"
+	"strconv"
 	"strings"
 	"sync"
 	"time"
 
+	json "go.starlark.net/lib/json"
 	"go.starlark.net/starlark"
 	"go.starlark.net/starlarkstruct"
 	"go.starlark.net/syntax"
@@ -80,13 +82,15 @@ type Res []any
 func i64(x int64) *int64 { return &x }
 func pv(v Val) *Val      { return &v }
 
-func genScript(r *hx.Rand, d *graphs.Desc, in *graphs.Instance, printable map[int]bool, length int) []COp {
+// genScript: allowed == nil means every object of the world is shared and frozen; otherwise
+// only the objects in allowed are (those reachable from the module's globals).
+func genScript(r *hx.Rand, d *graphs.Desc, in *graphs.Instance, printable map[int]bool, length int, allowed map[int]bool) []COp {
 	var ops []COp
 	n := len(d.Nodes)
-	for len(ops) < length {
+	for tries := 0; len(ops) < length && tries < 60*length; tries++ {
 		id := r.Intn(n)
 		nd := d.Nodes[id]
-		if in.Objs[id] == nil {
+		if in.Objs[id] == nil || (allowed != nil && !allowed[id]) {
 			continue
 		}
 		container := nd.Kind == "list" || nd.Kind == "dict" || nd.Kind == "set" || nd.Kind == "tuple" || nd.Kind == "tslice" || nd.Kind == "tcat"
@@ -118,7 +122,9 @@ func genScript(r *hx.Rand, d *graphs.Desc, in *graphs.Instance, printable map[in
 				ops = append(ops, COp{N: "iter2", Node: id})
 			}
 		case 6:
-			ops = append(ops, COp{N: "compare", Node: id, B: r.Intn(n)})
+			if other := r.Intn(n); in.Objs[other] != nil && (allowed == nil || allowed[other]) {
+				ops = append(ops, COp{N: "compare", Node: id, B: other})
+			}
 		case 7:
 			ops = append(ops, COp{N: "hash", Node: id})
 		case 8:
@@ -451,13 +457,19 @@ func scenarioValues(seed uint64, n, rounds, scriptLen int, full bool) {
 	for round := 0; round < rounds; round++ {
 		r := hx.NewRand(seed*7919 + uint64(round)*31 + uint64(n))
 		d := graphs.GenWith(r, true)
+		var allowed map[int]bool
 		if round == 0 {
 			d = graphs.Corner()
+		} else if round%3 == 2 {
+			// a module as C04 generates them: only what is reachable from its globals (through whatever
+			// edge: dict keys, closures, receivers, defaults ...) is shared; threads touch nothing else
+			d = graphs.Gen(r)
+			allowed = d.Reach()
 		}
 		src := d.Source()
 		in := graphs.Instantiate(d, src)
 		o := Out{Kind: "round", Scenario: "values", Seed: seed, N: n, Round: round, Src: src, Dist: map[string]int{}}
-		if in.Err != nil {
+		if in.Err != nil && !(allowed != nil && strings.Contains(in.Err.Error(), "planted failure")) {
 			o.Diff = "generator: module failed: " + in.Err.Error()
 			hx.Emit(o)
 			continue
@@ -488,7 +500,7 @@ func scenarioValues(seed uint64, n, rounds, scriptLen int, full bool) {
 		}
 		scripts := make([][]COp, n)
 		for t := 0; t < n; t++ {
-			scripts[t] = genScript(r, d, in, printable, scriptLen)
+			scripts[t] = genScript(r, d, in, printable, scriptLen, allowed)
 			for _, op := range scripts[t] {
 				o.Dist[op.N]++
 				o.Ops++
@@ -712,6 +724,94 @@ func scenarioProgInit(seed uint64, n, rounds int) {
 	}
 }
 
+// ---------------------------------------------------------------------- encode
+//
+// The encoders of the shared-use repertoire (json.encode, json.encode_indent,
+// json.decode of the encoding, str, repr) applied by N goroutines at the same
+// moment to the same frozen values -- values that carry STRINGS (keys, elements,
+// struct fields: printable ASCII with quotes and backslashes, empty to long),
+// which the integer-atom worlds of the other scenarios do not have.
+
+func encodeModule(r *hx.Rand) string {
+	var b strings.Builder
+	b.WriteString("strs = [\n")
+	for i := 0; i < 14; i++ {
+		n := []int{0, 1, 3, 8, 20, 60, 100, 126, 140}[r.Intn(9)]
+		bs := make([]byte, n)
+		for j := range bs {
+			bs[j] = byte(0x20 + r.Intn(0x5f))
+		}
+		fmt.Fprintf(&b, "    %s,\n", strconv.Quote(string(bs)+fmt.Sprint("#", i)))
+	}
+	b.WriteString("]\n")
+	b.WriteString("table = {s: [s, i, {\"k\": s, s: i}] for i, s in enumerate(strs)}\n")
+	b.WriteString("record = struct(name = strs[0], items = strs, nested = table, pair = (strs[1], strs[2]))\n")
+	b.WriteString("mixed = (strs[3], 2.5, None, True, [strs[4], {strs[5]: strs[6]}], 1 << 70)\n")
+	return b.String()
+}
+
+func encodeTranscript(g starlark.StringDict, th *starlark.Thread, iters int) []string {
+	enc, ind, dec := json.Module.Members["encode"], json.Module.Members["encode_indent"], json.Module.Members["decode"]
+	var out []string
+	for it := 0; it < iters; it++ {
+		for _, name := range []string{"strs", "table", "record", "mixed"} {
+			v := g[name]
+			e, err := starlark.Call(th, enc, starlark.Tuple{v}, nil)
+			if err != nil {
+				out = append(out, name+" encode: "+err.Error())
+				continue
+			}
+			out = append(out, string(e.(starlark.String)))
+			if i, err := starlark.Call(th, ind, starlark.Tuple{v}, nil); err == nil {
+				out = append(out, string(i.(starlark.String)))
+			}
+			if name != "record" {
+				if d, err := starlark.Call(th, dec, starlark.Tuple{e}, nil); err == nil {
+					out = append(out, d.String())
+				} else {
+					out = append(out, name+" decode: "+err.Error())
+				}
+			}
+			out = append(out, v.String())
+		}
+	}
+	return out
+}
+
+func scenarioEncode(seed uint64, n, rounds int) {
+	for round := 0; round < rounds; round++ {
+		src := encodeModule(hx.NewRand(seed*31337 + uint64(round)))
+		o := Out{Kind: "round", Scenario: "encode", Seed: seed, N: n, Round: round, Src: src}
+		pre := starlark.StringDict{"struct": starlark.NewBuiltin("struct", starlarkstruct.Make)}
+		g, err := starlark.ExecFileOptions(posOpts, &starlark.Thread{Name: "load"}, "enc.star", src, pre)
+		if err != nil {
+			o.Diff = "generator: module failed: " + err.Error()
+			hx.Emit(o)
+			continue
+		}
+		solo := encodeTranscript(g, &starlark.Thread{Name: "solo"}, 6)
+		conc := make([][]string, n)
+		together(n, func(t int) { conc[t] = encodeTranscript(g, &starlark.Thread{Name: fmt.Sprint("conc", t)}, 6) })
+		o.Same = true
+		o.Ops = n * len(solo)
+		for t := 0; t < n && o.Same; t++ {
+			for i := range solo {
+				if i >= len(conc[t]) || conc[t][i] != solo[i] {
+					o.Same = false
+					got := "<missing>"
+					if i < len(conc[t]) {
+						got = conc[t][i]
+					}
+					o.Diff = fmt.Sprintf("thread %d output %d: alone %q, concurrently %q", t, i, solo[i], got)
+					break
+				}
+			}
+		}
+		hx.Emit(o)
+		hx.Flush()
+	}
+}
+
 // ------------------------------------------------------------------ footprints
 //
 // Sequential, deterministic: what does each operation of the repertoire WRITE?
@@ -746,6 +846,9 @@ func stateOfNodes(in *graphs.Instance, only int) []objState {
 				st.frozen = b2i(f)
 			} else if s, ok := v.(*starlarkstruct.Struct); ok {
 				st.frozen = b2i(starlarkstruct.VerifFrozen(s))
+			}
+			if bx, ok := v.(*graphs.Box); ok {
+				st.frozen = b2i(bx.Frozen())
 			}
 			if _, ok := v.(starlark.Tuple); ok {
 				st.frozen = 1 // immutable from birth: its array (up to its capacity) must never change
@@ -822,16 +925,17 @@ type FSeq struct {
 }
 
 type FOut struct {
-	Kind     string       `json:"kind"`
-	Seed     uint64       `json:"seed"`
-	Round    int          `json:"round"`
-	Desc     *graphs.Desc `json:"desc"`
-	Src      string       `json:"src"`
-	Seqs     []FSeq       `json:"seqs"`
-	Position string       `json:"position,omitempty"` // a problem with the lazily decoded line table
-	Derived  []FDerived   `json:"derived,omitempty"`  // derived-value operations that wrote to the value they were computed from
-	NDerived int          `json:"nderived"`
-	Steps    int          `json:"steps"`
+	Kind      string       `json:"kind"`
+	Seed      uint64       `json:"seed"`
+	Round     int          `json:"round"`
+	Desc      *graphs.Desc `json:"desc"`
+	Src       string       `json:"src"`
+	Seqs      []FSeq       `json:"seqs"`
+	Position  string       `json:"position,omitempty"`   // a problem with the lazily decoded line table
+	NotFrozen []int        `json:"not_frozen,omitempty"` // reachable from the module's globals, has a frozen flag, and it is not set
+	Derived   []FDerived   `json:"derived,omitempty"`    // derived-value operations that wrote to the value they were computed from
+	NDerived  int          `json:"nderived"`
+	Steps     int          `json:"steps"`
 }
 
 // FDerived: computing a value from node (and, for Mut != "", mutating the derived value) wrote to node.
@@ -852,6 +956,11 @@ func scenarioFootprints(seed uint64, rounds int) {
 		src := d.Source()
 		o := FOut{Kind: "fp", Seed: seed, Round: round, Desc: d, Src: src}
 		probe := graphs.Instantiate(d, src)
+		for id, st := range stateOf(probe) {
+			if d.Reach()[id] && st.frozen == 0 {
+				o.NotFrozen = append(o.NotFrozen, id)
+			}
+		}
 		printable := map[int]bool{}
 		// sequences obtained EARLY: while the module was still running and the value was mutable
 		early := func(seqs map[int]func(func())) func(int, starlark.Value) {
@@ -1106,6 +1215,8 @@ func main() {
 			scenarioProgInit(*seed, *n, *rounds)
 		case "footprints":
 			scenarioFootprints(*seed, *rounds)
+		case "encode":
+			scenarioEncode(*seed, *n, *rounds)
 		}
 		hx.Flush()
 		return
@@ -1126,12 +1237,14 @@ func main() {
 		jobs = []job{{"values", 2, 8, 14, true, 0}, {"values", 8, 6, 12, false, 0}, {"values", 32, 2, 10, false, 0},
 			{"position", 2, 4, 0, false, 0}, {"position", 8, 4, 0, false, 0}, {"position", 32, 2, 0, false, 0},
 			{"proginit", 2, 4, 0, false, 0}, {"proginit", 8, 4, 0, false, 0}, {"proginit", 32, 2, 0, false, 0},
+			{"encode", 8, 3, 0, false, 0},
 			{"footprints", 1, 15, 0, false, 0}}
 	} else {
 		jobs = []job{{"values", 2, 1200, 16, true, 0}, {"values", 3, 480, 14, true, 0}, {"values", 8, 960, 14, false, 0}, {"values", 32, 360, 12, false, 0},
 			{"values", 8, 480, 14, false, 2}, {"values", 4, 480, 14, false, 4},
 			{"position", 2, 720, 0, false, 0}, {"position", 8, 720, 0, false, 0}, {"position", 32, 300, 0, false, 0}, {"position", 8, 360, 0, false, 2},
 			{"proginit", 2, 480, 0, false, 0}, {"proginit", 8, 480, 0, false, 0}, {"proginit", 32, 180, 0, false, 0}, {"proginit", 8, 240, 0, false, 2},
+			{"encode", 2, 40, 0, false, 0}, {"encode", 8, 40, 0, false, 0}, {"encode", 32, 15, 0, false, 0}, {"encode", 8, 20, 0, false, 2},
 			{"footprints", 1, 1000, 0, false, 0}}
 	}
 	w := os.Stdout
